@@ -13,3 +13,19 @@ pub fn no() -> bool {
 pub fn any_bool() -> bool {
     kani::any()
 }
+
+/// Loop-free contract of `select_in_word`, used where a harness treats the
+/// in-word select as already decided (C02 discharges `select_in_word ==
+/// spec::select_in_word` for every word and every k on every dispatch path).
+/// The result is the unique r with bit r set and exactly k set bits below it,
+/// or 64 when there are at most k set bits.
+pub fn select_in_word_contract(x: u64, k: u32) -> u32 {
+    if k >= x.count_ones() {
+        return 64;
+    }
+    let r: u32 = kani::any();
+    kani::assume(r < 64);
+    kani::assume((x >> r) & 1 == 1);
+    kani::assume((x & ((1u64 << r) - 1)).count_ones() == k);
+    r
+}
